@@ -28,6 +28,7 @@ func c04(c *Ctx) {
 	sStale(c, "R6/S-STALE", "(*Raft).appendEntries")
 	sState(c, "R7/S-STATE")
 	sMatch(c, "R8/S-MATCH")
+	c19p(c, "R9/C19.")
 }
 
 // prevCheckTracks: tracks of the previous-entry check in appendEntries.
